@@ -134,6 +134,9 @@ def roundtrip(dobj):
     tree = dobj.to_xml_tree()
     if _RT[0] % 2:
         dobj.to_xml_tree()          # every second case: another tree is written before the first one is serialised
+    else:
+        from harness.props.c15 import other_definition
+        other_definition().to_xml_tree()     # ... or a tree of a very different definition
     xml = etree.tostring(tree)
     return XtcePacketDefinition.from_xtce(io.BytesIO(xml), xtce_ns_prefix=dobj.xtce_ns_prefix, root_container_name=dobj.root_container_name), xml
 
@@ -272,6 +275,8 @@ def run(ctx):
         ctx.count(("file", f))
         compare(ctx, f"document {f}", x0, None, pk[:40 if q else 400], {"file": f}, "C09/file")
     ctx.extra["documents_from_files"] = nfile
+    if nfile < 5 and not ctx.violations:
+        ctx.vacuity(f"only {nfile} bundled documents could be loaded for the round trip")
     ctx.sample({"lattice_point": cases[3], "routes": ["obj", "xml/prefix", "xml/default namespace with defaults omitted"]}, limit=2)
     ctx.sample({"lattice_points_pair": cases[len(pts) + 1]}, limit=3)
 
